@@ -1,9 +1,361 @@
-//! stub
-use super::Ctx;
-use crate::engine::evidence::{Case, Report, Verdict};
-pub fn run(_ctx: &Ctx, _rep: &mut Report) {
-    crate::engine::monitor::machinery_fail("not implemented");
+//! C08 - suit shifting is a rank-preserving 4-cycle and never changes a hand's value.
+//!
+//! Spaces
+//!   card clause:  all 52 cards and blank (S->H->D->C->S, rank kept, four shifts = identity, blank fixed)
+//!   slot-wise:    all tuples over S53 for sizes 2..4; size 5 all multisets x rotations (thorough: all 53^5 tuples);
+//!                 sizes 6..7 all tuples over a 9-symbol alphabet plus the all-pairs family (every slot pair x
+//!                 every pair of S53 symbols)
+//!   value clause: all five-card hands under all 24 suit relabellings and under the crate's own three shifts; all
+//!                 six-card hands under the three shifts; all seven-card hands under one shift (thorough: three
+//!                 shifts, and all 24 relabellings for six and seven cards as well)
+//! Oracle: slot-wise model shift built from the layout formula; value equality is relational (crate vs crate).
+use super::hands::AnyHand;
+use super::{confirm, sample_json, Ctx};
+use crate::engine::enumerate::{combos_prefix, multisets_first, par_parts, permutations, tuple_decode};
+use crate::engine::evidence::{Acc, Case, Report, Verdict};
+use crate::engine::monitor::{self, guard};
+use crate::oracle::cards::{deck, show_words, sigma53, word_to_card, Card};
+use ckc_rs::Shifty;
+use std::time::Instant;
+
+fn model_shift(w: u32) -> Option<u32> {
+    if w == 0 {
+        return Some(0);
+    }
+    // spades(3) -> hearts(2) -> diamonds(1) -> clubs(0) -> spades(3)
+    word_to_card(w).map(|c| Card::new(c.rank(), (c.suit() + 3) % 4).word())
 }
-pub fn judge(_case: &Case) -> Verdict {
-    Verdict::NotJudged("not implemented".into())
+
+fn suit_perms() -> Vec<[u8; 4]> {
+    permutations(4).into_iter().map(|p| [p[0] as u8, p[1] as u8, p[2] as u8, p[3] as u8]).collect()
+}
+
+fn relabel(w: &[u32], p: &[u8; 4]) -> Option<Vec<u32>> {
+    w.iter().map(|x| word_to_card(*x).map(|c| Card::new(c.rank(), p[c.suit() as usize]).word())).collect()
+}
+
+/// Case kinds: "card.shift" [w]; "<size>.shift_slotwise" [words]; "<size>.shift_value" [words] (k = 1..3 shifts all checked);
+/// "<size>.relabel_value" [words..., permutation number 0..23].
+pub fn judge(case: &Case) -> Verdict {
+    if case.kind == "card.shift" {
+        let w = case.words.first().copied().unwrap_or(0) as u32;
+        let exp = match model_shift(w) {
+            Some(e) => e,
+            None => return Verdict::NotJudged("neither a real card nor blank".into()),
+        };
+        return match guard(|| {
+            let s1 = w.shift_suit();
+            (s1, s1.shift_suit().shift_suit().shift_suit())
+        }) {
+            Err(p) => Verdict::Violated { class: "panic:card.shift".into(), expected: show_words(&[exp]), observed: format!("panic: {}", p) },
+            Ok((s1, s4)) if s1 != exp => Verdict::Violated { class: "card.shift:wrong-card".into(), expected: format!("{} -> {}", show_words(&[w]), show_words(&[exp])), observed: show_words(&[s1]) + &format!(" (four shifts give {})", show_words(&[s4])) },
+            Ok((_, s4)) if s4 != w => Verdict::Violated { class: "card.shift:four-shifts-not-identity".into(), expected: show_words(&[w]), observed: show_words(&[s4]) },
+            Ok(_) => Verdict::Holds,
+        };
+    }
+    let (size, what) = match case.kind.split_once('.') {
+        Some(x) => x,
+        None => return Verdict::NotJudged("bad kind".into()),
+    };
+    let n = match AnyHand::size_of_name(size) {
+        Some(n) => n,
+        None => return Verdict::NotJudged("bad size".into()),
+    };
+    let all = case.w32s();
+    if all.len() < n {
+        return Verdict::NotJudged("too few words".into());
+    }
+    let w = &all[..n];
+    match what {
+        "shift_slotwise" => {
+            let exp: Vec<u32> = match w.iter().map(|x| model_shift(*x)).collect() {
+                Some(e) => e,
+                None => return Verdict::NotJudged("a slot holds neither a card nor blank".into()),
+            };
+            match guard(|| AnyHand::from_words(w).shift_suit().to_vec()) {
+                Err(p) => Verdict::Violated { class: format!("panic:{}", case.kind), expected: show_words(&exp), observed: format!("panic: {}", p) },
+                Ok(got) if got != exp => {
+                    let slot = (0..n).find(|i| got[*i] != exp[*i]).unwrap();
+                    Verdict::Violated { class: format!("{}:slot-{}-not-shifted-correctly", case.kind, slot + 1), expected: format!("[{}] -> [{}]", show_words(w), show_words(&exp)), observed: format!("[{}]", show_words(&got)) }
+                }
+                Ok(_) => Verdict::Holds,
+            }
+        }
+        "shift_value" => {
+            if n < 5 || super::c01::distinct_cards(w).is_none() {
+                return Verdict::NotJudged("value clause is about 5..7 distinct real cards".into());
+            }
+            match guard(|| {
+                let h = AnyHand::from_words(w);
+                let v0 = h.value().unwrap();
+                let mut vs = Vec::new();
+                let mut x = h;
+                for _ in 0..3 {
+                    x = x.shift_suit();
+                    vs.push(x.value().unwrap());
+                }
+                (v0, vs)
+            }) {
+                Err(p) => Verdict::Violated { class: format!("panic:{}", case.kind), expected: "equal values".into(), observed: format!("panic: {}", p) },
+                Ok((v0, vs)) if vs.iter().any(|v| *v != v0) => Verdict::Violated { class: format!("{}:value-changes-under-shift", case.kind), expected: format!("value {} of [{}] after 1, 2 and 3 shifts", v0, show_words(w)), observed: format!("{:?}", vs) },
+                Ok(_) => Verdict::Holds,
+            }
+        }
+        "relabel_value" => {
+            if n < 5 || all.len() != n + 1 || all[n] >= 24 {
+                return Verdict::NotJudged("needs the hand and a permutation number".into());
+            }
+            let p = suit_perms()[all[n] as usize];
+            let r = match relabel(w, &p) {
+                Some(r) if super::c01::distinct_cards(w).is_some() => r,
+                _ => return Verdict::NotJudged("not distinct real cards".into()),
+            };
+            match guard(|| (AnyHand::from_words(w).value().unwrap(), AnyHand::from_words(&r).value().unwrap())) {
+                Err(pn) => Verdict::Violated { class: format!("panic:{}", case.kind), expected: "equal values".into(), observed: format!("panic: {}", pn) },
+                Ok((a, b)) if a != b => Verdict::Violated { class: format!("{}:value-depends-on-suit-labels", case.kind), expected: format!("[{}] and [{}] (suits relabelled by {:?}) rank the same", show_words(w), show_words(&r), p), observed: format!("{} vs {}", a, b) },
+                Ok(_) => Verdict::Holds,
+            }
+        }
+        _ => Verdict::NotJudged("unknown observation".into()),
+    }
+}
+
+fn slotwise(acc: &mut Acc, w: &[u32]) {
+    acc.cases += 1;
+    acc.calls += 1;
+    let n = w.len();
+    let ok = match guard(|| AnyHand::from_words(w).shift_suit()) {
+        Ok(h) => {
+            let mut out = [0u32; 7];
+            h.write_to(&mut out[..n]);
+            (0..n).all(|i| Some(out[i]) == model_shift(w[i]))
+        }
+        Err(_) => false,
+    };
+    if !ok {
+        match confirm(judge, Case::w32(&format!("{}.shift_slotwise", AnyHand::size_name(n)), w)) {
+            Some(v) => acc.violate(v),
+            None => monitor::machinery_fail("C08 slot-wise mismatch not reproduced"),
+        }
+    }
+}
+
+fn value_space(ctx: &Ctx, rep: &mut Report, n: usize, shifts: usize, relabels: bool) {
+    let d = deck();
+    let size = AnyHand::size_name(n);
+    let perms = suit_perms();
+    let mut parts = Vec::new();
+    for a in 0..52usize {
+        for b in a + 1..52 {
+            if b + (n - 2) < 52 {
+                parts.push((a, b));
+            }
+        }
+    }
+    let kind = monitor::kind_id(&format!("{}.shift_value", size));
+    let t0 = Instant::now();
+    let accs = par_parts(parts.len(), |pi| {
+        let (a, b) = parts[pi];
+        let mut acc = Acc::new(1);
+        let mut cs = vec![Card(0); n];
+        let mut w = vec![0u32; n];
+        let mut r = vec![0u32; n];
+        combos_prefix(52, n, &[a, b], &mut |idx| {
+            for i in 0..n {
+                cs[i] = d[idx[i]];
+                w[i] = cs[i].word();
+            }
+            let w64: Vec<u64> = w.iter().map(|x| *x as u64).collect();
+            monitor::beat(kind, &w64);
+            acc.cases += 1;
+            let suits_used = cs.iter().fold(0u8, |m, c| m | 1 << c.suit()).count_ones();
+            if suits_used < 4 {
+                acc.nontrivial += 1;
+            }
+            let res = guard(|| {
+                let h = AnyHand::from_words(&w);
+                let v0 = h.value().unwrap();
+                let mut ok = true;
+                let mut x = h;
+                for _ in 0..shifts {
+                    x = x.shift_suit();
+                    ok &= x.value().unwrap() == v0;
+                }
+                ok
+            });
+            acc.calls += 1 + 2 * shifts as u64;
+            if !matches!(res, Ok(true)) {
+                match confirm(judge, Case::w32(&format!("{}.shift_value", size), &w)) {
+                    Some(v) => acc.violate(v),
+                    None => monitor::machinery_fail("C08 value mismatch not reproduced"),
+                }
+            }
+            if relabels {
+                let v0 = guard(|| AnyHand::from_words(&w).value().unwrap());
+                for (pn, p) in perms.iter().enumerate().skip(1) {
+                    for i in 0..n {
+                        r[i] = Card::new(cs[i].rank(), p[cs[i].suit() as usize]).word();
+                    }
+                    acc.calls += 1;
+                    let v = guard(|| AnyHand::from_words(&r).value().unwrap());
+                    if v.is_err() || v != v0 {
+                        let mut ws = w.clone();
+                        ws.push(pn as u32);
+                        match confirm(judge, Case::w32(&format!("{}.relabel_value", size), &ws)) {
+                            Some(v) => acc.violate(v),
+                            None => monitor::machinery_fail("C08 relabel mismatch not reproduced"),
+                        }
+                    }
+                }
+            }
+            if acc.samples.is_empty() && (pi as u64 + ctx.seed) % 173 == 0 {
+                let h = AnyHand::from_words(&w);
+                acc.samples.push(sample_json(&format!("{}.shift_value", size), &show_words(&w), &format!("value {:?}; shifted [{}] value {:?}", h.value(), show_words(&h.shift_suit().to_vec()), h.shift_suit().value())));
+            }
+        });
+        acc
+    });
+    let acc = Acc::merged(accs);
+    rep.add_space(&format!("{}H: value under {} shift(s){}", n, shifts, if relabels { " and all 24 suit relabellings" } else { "" }), &acc, t0, "relational: crate value before vs after");
+}
+
+pub fn run(ctx: &Ctx, rep: &mut Report) {
+    let thorough = ctx.tier.thorough();
+    // card clause
+    {
+        let t0 = Instant::now();
+        let mut acc = Acc::new(1);
+        for i in 0..53 {
+            acc.cases += 1;
+            acc.calls += 4;
+            acc.nontrivial += (i < 52) as u64;
+            if let Some(v) = confirm(judge, Case::w32("card.shift", &[sigma53(i)])) {
+                acc.violate(v);
+            }
+        }
+        let a = sigma53(0);
+        rep.sample(sample_json("card.shift", &show_words(&[a]), &show_words(&[a.shift_suit(), a.shift_suit().shift_suit(), a.shift_suit().shift_suit().shift_suit(), a.shift_suit().shift_suit().shift_suit().shift_suit()])));
+        rep.add_space("52 cards + blank: shift is the 4-cycle S->H->D->C->S", &acc, t0, "");
+    }
+    // slot-wise clause: sizes 2..4 all tuples over S53
+    let kind = monitor::kind_id("shift_slotwise");
+    for n in 2..=4usize {
+        let t0 = Instant::now();
+        let total = 53u64.pow(n as u32);
+        let nparts = 53usize;
+        let accs = par_parts(nparts, |p| {
+            let mut acc = Acc::new(1);
+            let mut idx = vec![0usize; n];
+            let mut w = vec![0u32; n];
+            for t in (total * p as u64 / nparts as u64)..(total * (p as u64 + 1) / nparts as u64) {
+                tuple_decode(t, 53, &mut idx);
+                for i in 0..n {
+                    w[i] = sigma53(idx[i]);
+                }
+                if t % 1024 == 0 {
+                    monitor::beat(kind, &[n as u64, t]);
+                }
+                slotwise(&mut acc, &w);
+            }
+            acc
+        });
+        let mut acc = Acc::merged(accs);
+        acc.nontrivial = acc.cases;
+        rep.add_space(&format!("slot-wise: all 53^{} tuples over S53, size {}", n, n), &acc, t0, "every card-or-blank content of every slot");
+    }
+    // size 5
+    {
+        let t0 = Instant::now();
+        let accs = if thorough {
+            let total = 53u64.pow(5);
+            par_parts(53 * 53, |p| {
+                let mut acc = Acc::new(1);
+                let mut idx = [0usize; 5];
+                let mut w = [0u32; 5];
+                for t in (total * p as u64 / 2809)..(total * (p as u64 + 1) / 2809) {
+                    tuple_decode(t, 53, &mut idx);
+                    for i in 0..5 {
+                        w[i] = sigma53(idx[i]);
+                    }
+                    if t % 1024 == 0 {
+                        monitor::beat(kind, &[5, t]);
+                    }
+                    slotwise(&mut acc, &w);
+                }
+                acc
+            })
+        } else {
+            par_parts(53, |first| {
+                let mut acc = Acc::new(1);
+                multisets_first(53, 5, first, &mut |idx| {
+                    let base = [sigma53(idx[0]), sigma53(idx[1]), sigma53(idx[2]), sigma53(idx[3]), sigma53(idx[4])];
+                    for b in 0..5 {
+                        let mut w = [0u32; 5];
+                        for i in 0..5 {
+                            w[(i + b) % 5] = base[i];
+                        }
+                        slotwise(&mut acc, &w);
+                    }
+                });
+                monitor::tick();
+                acc
+            })
+        };
+        let mut acc = Acc::merged(accs);
+        acc.nontrivial = acc.cases;
+        rep.add_space(if thorough { "slot-wise: all 53^5 tuples, size 5" } else { "slot-wise: all five-slot multisets over S53 x 5 rotations" }, &acc, t0, "");
+    }
+    // sizes 6..7: all tuples over a 9-symbol alphabet + all-pairs family
+    for n in 6..=7usize {
+        let t0 = Instant::now();
+        let c = |r: u8, s: u8| Card::new(r, s).word();
+        let r1 = (ctx.seed % 13) as u8;
+        let r2 = ((ctx.seed / 13 + 5) % 13) as u8;
+        let r2 = if r2 == r1 { (r1 + 1) % 13 } else { r2 };
+        let al = [c(r1, 0), c(r1, 1), c(r1, 2), c(r1, 3), c(r2, 0), c(r2, 1), c(r2, 2), c(r2, 3), 0];
+        let total = 9u64.pow(n as u32);
+        let accs = par_parts(81, |p| {
+            let mut acc = Acc::new(1);
+            let mut idx = vec![0usize; n];
+            let mut w = vec![0u32; n];
+            for t in (total * p as u64 / 81)..(total * (p as u64 + 1) / 81) {
+                tuple_decode(t, 9, &mut idx);
+                for i in 0..n {
+                    w[i] = al[idx[i]];
+                }
+                if t % 1024 == 0 {
+                    monitor::beat(kind, &[n as u64, t]);
+                }
+                slotwise(&mut acc, &w);
+            }
+            acc
+        });
+        let mut acc = Acc::merged(accs);
+        // all-pairs family
+        let d = deck();
+        for i in 0..n {
+            for j in i + 1..n {
+                for x in 0..53 {
+                    for y in 0..53 {
+                        let mut w: Vec<u32> = (0..n).map(|s| d[(s * 7 + 2) % 52].word()).collect();
+                        w[i] = sigma53(x);
+                        w[j] = sigma53(y);
+                        slotwise(&mut acc, &w);
+                    }
+                }
+            }
+        }
+        acc.nontrivial = acc.cases;
+        rep.add_space(&format!("slot-wise: all 9^{} tuples over two ranks x four suits + blank, plus every slot pair x every S53 symbol pair, size {}", n, n), &acc, t0, "");
+    }
+    // value clause
+    value_space(ctx, rep, 5, 3, true);
+    value_space(ctx, rep, 6, 3, thorough);
+    value_space(ctx, rep, 7, if thorough { 3 } else { 1 }, thorough);
+    rep.rule = "distinct inputs (cards, ordered hands, (hand, relabelling) pairs); non-trivial for the value clause = hands that do not use all four suits (a relabelling really changes which suits are present); every slot-wise input is non-trivial".into();
+    rep.bound = if thorough {
+        "cards complete; slot-wise complete for sizes 2..5, bounded alphabet + all slot pairs for 6..7; value clause: every 5/6/7-card hand under all shifts and all 24 relabellings (canonical slot order)".into()
+    } else {
+        "cards complete; slot-wise complete for sizes 2..4, multisets x rotations for 5, bounded alphabet + all slot pairs for 6..7; value clause: 5H x 24 relabellings and 3 shifts, 6H x 3 shifts, 7H x 1 shift".into()
+    };
 }
